@@ -66,6 +66,13 @@ class Check:
     def extra_evidence(self, agg: dict[str, Any]) -> dict[str, Any]:
         return {}
 
+    def on_worker_death(self, rec: dict[str, Any]) -> dict[str, Any] | None:
+        """A worker process died while running ``rec['spec']`` (exit status
+        ``rec['status']``, negative = signal).  Return a violation dict if
+        that death is itself a decisive observation (e.g. the kernel's
+        CPU-time timer), else None (inconclusive)."""
+        return None
+
 
 def load_known(pid: str) -> list[dict[str, Any]]:
     try:
@@ -215,6 +222,11 @@ def farm(check: Check, specs: list[dict[str, Any]], cap: float,
             except FileNotFoundError:
                 pass
             st = status.get(i, 0)
+            if st not in (0, -9):
+                try:
+                    st = os.waitstatus_to_exitcode(st)
+                except ValueError:
+                    pass
             if st != 0:
                 yield {'hung': started, 'status': st, 'shard': i,
                        'spec': specs[started] if started is not None
@@ -325,7 +337,15 @@ def main(check: Check, argv: list[str]) -> int:
         results = farm(check, specs, cap, cap * 3 + 120)
     for rec in results:
         if 'hung' in rec:
-            hung.append(rec)
+            v = check.on_worker_death(rec) if rec.get('spec') else None
+            if v is not None:
+                evaluations += 1
+                if v['mech'] in known_mechs:
+                    suppressed[v['mech']] = suppressed.get(v['mech'], 0) + 1
+                else:
+                    violations.append((rec['spec'], v))
+            else:
+                hung.append(rec)
             continue
         if 'skipped' in rec:
             skipped += 1
